@@ -114,9 +114,103 @@ pub fn run(_args: &[String]) -> i32 {
             }
         }
     }
+    conversions(&mut bad, &mut evaluated);
     for (s, why) in bad.iter().take(8) {
         println!("{}", serde_json::json!({"input": s, "contradiction": why}));
     }
     println!("{}", serde_json::json!({"family": "c16", "evaluated": evaluated, "contradictions": bad.len()}));
     if bad.is_empty() { 0 } else { 1 }
+}
+
+fn cost_of(p: &syntax::plain::Posting) -> Option<(Decimal, String)> {
+    match p.amount.as_ref()?.cost.as_ref()? {
+        syntax::Exchange::Rate(syntax::expr::ValueExpr::Amount(a)) => Some((a.value.value, a.commodity.to_string())),
+        _ => None,
+    }
+}
+fn commodity_of(p: &syntax::plain::Posting) -> Option<String> {
+    match &p.amount.as_ref()?.amount {
+        syntax::expr::ValueExpr::Amount(a) => Some(a.commodity.to_string()),
+        _ => None,
+    }
+}
+
+/// Statements with rate / secondary amount / secondary commodity columns: a conversion applies to a row iff the rule that
+/// matched it carries an enabled `conversion`, or (no rule-level conversion and) the account-level default is enabled and the
+/// row has all three columns; a rule-level or account-level `disabled: true` switches it off.  When it applies the
+/// counter-posting carries the secondary amount (opposite sign) and the rate is attached to the posting of the commodity
+/// it prices; when it does not, the counter-posting is the plain opposite amount.
+fn conversions(bad: &mut Vec<(String, String)>, evaluated: &mut u64) {
+    // (payee, amount CHF, rate, secondary amount, secondary commodity)
+    let rows: [(&str, &str, &str, &str, &str); 5] = [
+        ("Plain", "-12.00", "", "", ""),
+        ("Hotel", "-18.00", "0.90", "20.00", "USD"),     // default conversion: 1 USD = 0.90 CHF (price_of_secondary), extract
+        ("NoConv", "-27.00", "0.90", "30.00", "USD"),    // matched by a rule with conversion.disabled
+        ("Primary", "-10.00", "1.25", "", ""),           // rule: compute, price_of_primary, commodity EUR: 1 CHF = 1.25 EUR -> 12.50 EUR
+        ("Income", "45.00", "0.90", "50.00", "USD"),     // positive row with the default conversion
+    ];
+    for account_disabled in [false, true] {
+        *evaluated += 1;
+        let mut yaml = String::from("path: conv.csv\nencoding: UTF-8\naccount: Acct:Main\naccount_type: asset\ncommodity:\n  primary: CHF\n");
+        if account_disabled { yaml.push_str("  conversion:\n    disabled: true\n"); }
+        yaml.push_str("format:\n  date: \"%Y-%m-%d\"\n  fields:\n    date: Date\n    payee: Text\n    amount: Amount\n    rate: Rate\n    secondary_amount: SecAmount\n    secondary_commodity: SecCommodity\n");
+        yaml.push_str("rewrite:\n  - matcher:\n      payee: NoConv\n    account: Expenses:A\n    conversion:\n      disabled: true\n");
+        yaml.push_str("  - matcher:\n      payee: Primary\n    account: Expenses:B\n    conversion:\n      amount: compute\n      rate: price_of_primary\n      commodity: EUR\n");
+        yaml.push_str("  - matcher:\n      payee: Hotel\n    account: Expenses:C\n");
+        let mut csv = String::from("Date,Text,Amount,Rate,SecAmount,SecCommodity\n");
+        for (i, r) in rows.iter().enumerate() {
+            csv.push_str(&format!("2024-04-{:02},{},{},{},{},{}\n", i + 1, r.0, r.1, r.2, r.3, r.4));
+        }
+        let desc = format!("config:\n{}\ncsv:\n{}", yaml, csv);
+        let set = match import::config::load_from_yaml(yaml.as_bytes()) { Ok(s) => s, Err(e) => { bad.push((desc, format!("config rejected: {}", e))); continue; } };
+        let entry = match set.select(Path::new("conv.csv")) { Ok(Some(e)) => e, _ => { bad.push((desc, "no config selected".into())); continue; } };
+        let txns = match import::import(csv.as_bytes(), Format::Csv, &entry) { Ok(t) => t, Err(e) => { bad.push((desc, format!("import failed: {}", e))); continue; } };
+        if txns.len() != rows.len() { bad.push((desc, format!("{} transactions for {} rows", txns.len(), rows.len()))); continue; }
+        // expected counter posting per row: (value, commodity, which posting carries a rate: None | Some((on_counter, rate, rate commodity)))
+        let expect = |i: usize| -> (Decimal, &str, Option<(bool, Decimal, &str)>) {
+            match (i, account_disabled) {
+                (0, _) => (d("12.00"), "CHF", None),
+                (1, false) => (d("20.00"), "USD", Some((true, d("0.90"), "CHF"))),
+                (1, true) => (d("18.00"), "CHF", None),
+                (2, _) => (d("27.00"), "CHF", None),
+                (3, _) => (d("12.50"), "EUR", Some((false, d("1.25"), "EUR"))),
+                (4, false) => (d("-50.00"), "USD", Some((true, d("0.90"), "CHF"))),
+                _ => (d("-45.00"), "CHF", None),
+            }
+        };
+        let mut ledger_text = String::from("2024/01/01 opening\n    Acct:Main    1000.00 CHF\n    Equity\n\n");
+        let mut problem: Option<String> = None;
+        for (i, t) in txns.iter().enumerate() {
+            let de = match t.to_double_entry(&entry.account) { Ok(x) => x, Err(e) => { problem = Some(format!("row {} could not be converted: {}", i, e)); break; } };
+            let acct: Vec<&syntax::plain::Posting> = de.posts.iter().filter(|p| p.account.as_undecorated() == "Acct:Main").collect();
+            let other: Vec<&syntax::plain::Posting> = de.posts.iter().filter(|p| p.account.as_undecorated() != "Acct:Main").collect();
+            if acct.len() != 1 || other.len() != 1 { problem = Some(format!("row {}: expected one account posting and one counter posting", i)); break; }
+            let (v, c, rate) = expect(i);
+            if amount_of(acct[0]) != Some(d(rows[i].1)) || commodity_of(acct[0]).as_deref() != Some("CHF") {
+                problem = Some(format!("row {} ({}): account posting is {:?} {:?}, must be {} CHF", i, rows[i].0, amount_of(acct[0]), commodity_of(acct[0]), rows[i].1)); break;
+            }
+            if amount_of(other[0]) != Some(v) || commodity_of(other[0]).as_deref() != Some(c) {
+                problem = Some(format!("row {} ({}): counter posting is {:?} {:?}, must be {} {}", i, rows[i].0, amount_of(other[0]), commodity_of(other[0]), v, c)); break;
+            }
+            let (want_counter, want_acct) = match rate { None => (None, None), Some((true, r, rc)) => (Some((r, rc.to_owned())), None), Some((false, r, rc)) => (None, Some((r, rc.to_owned()))) };
+            if cost_of(other[0]) != want_counter || cost_of(acct[0]) != want_acct {
+                problem = Some(format!("row {} ({}): rates attached: counter {:?}, account {:?}; must be counter {:?}, account {:?}", i, rows[i].0, cost_of(other[0]), cost_of(acct[0]), want_counter, want_acct)); break;
+            }
+            let ctx = syntax::display::DisplayContext::default();
+            ledger_text.push_str(&format!("{}\n", ctx.as_display(&de)));
+        }
+        if let Some(p) = problem { bad.push((desc, p)); continue; }
+        let arena = Bump::new();
+        let mut rctx = report::ReportContext::new(&arena);
+        let mut files: HashMap<PathBuf, Vec<u8>> = HashMap::new();
+        files.insert(PathBuf::from("/m.ledger"), ledger_text.clone().into_bytes());
+        let loader = load::Loader::new(PathBuf::from("/m.ledger"), load::FakeFileSystem::from(files));
+        let verdict = match report::process(&mut rctx, loader, &report::ProcessOptions::default()) {
+            Err(e) => Some(format!("okane's book-keeping rejects the imported ledger: {}", format!("{}", e).lines().next().unwrap_or(""))),
+            Ok(_) => None,
+        };
+        if let Some(v) = verdict {
+            bad.push((format!("{}\nimported ledger:\n{}", desc, ledger_text), v));
+        }
+    }
 }
